@@ -110,10 +110,15 @@ def classify_store(ctx, f, nd, tgt, val, K, mask_in_scope):
             if elt[0] == 'ifexp' and elt[3][0] == 'iter' and elt[3][1] == it and elt[2] == ('c', -1):
                 return 'ok', '(iii) position-preserving row over obtain_latters(u, K)'
             return 'bad', '(iii) row element %s is neither the successor nor -1' % show(elt)
-        if any(obtain_latters_of(x) is not None for x in walk_term(v)):
+        ol = obtain_latters_of(v)
+        if ol is not None and ol[0] == u and (K is None or ol[1] == K) and not mask_in_scope:
+            return 'ok', '(iii) the whole row is obtain_latters(u, K): column j holds the j-th successor'
+        if any(obtain_latters_of(x) is not None for x in walk_term(v)) and v[0] == 'bin':
             return 'bad', '(iii) the row is assembled as %s: not a single position-preserving pass over obtain_latters(u, K)' % show(v)[:120]
-        return 'bad', ('(iii) a whole accessor row is overwritten with %s, which is not a position-preserving pass over '
-                       'obtain_latters of that vertex: column j need not hold the j-th successor' % show(val)[:80])
+        if v[0] in ('item', 'iter') and any(x[0] == 'v' and x[1] == 'latter_map' for x in walk_term(v)):
+            return 'bad', ('(iii) a whole accessor row is overwritten with %s, a list taken from the latter map: its order and '
+                           'length are not tied to the columns, so column j need not hold the j-th successor' % show(val)[:80])
+        return 'undecided', 'whole-row store of %s' % show(val)[:100]
     if tgt[0] == 'sub' and tgt[1][0] == 'sub' and ctx.kinds.kind(tgt[1][1], f) == 'ACC':
         u, j, w = tgt[1][2], tgt[2], val
         # (i) enumerate(obtain_latters(u, K))
@@ -222,6 +227,14 @@ def check_derived(ctx, f):
                     after = any(nd.id in f.reachable_from(dn) for dn in dnodes)
                     if after and rnd.id in f.reachable_from(nd.id, avoid=dnodes):
                         stale.append(nd)
+                if stale:
+                    # a witness needs the recomputation to sit outside every loop that holds the stale store; when both are in
+                    # the same loop the only escape is the loop's own exit edge, whose feasibility this rule does not decide
+                    same_loop = all(any(l in f.nodes[dn].loops for dn in dnodes for l in s_.loops) for s_ in stale if s_.loops)
+                    if same_loop and all(s_.loops for s_ in stale):
+                        run.undecided('R-ARC', f, 'derived-view:%s-of-%s' % (x, a), rnd.lineno,
+                                      'the recomputation and the store share a loop; exit feasibility is not decided')
+                        continue
                 run.check(not stale, 'R-ARC', f, 'derived-view:%s-of-%s' % (x, a), rnd.lineno,
                           '%s is recomputed from %s after every later store' % (x, a),
                           "%s = f(%s) is returned with %s, but the store at line %s reaches the return without "
@@ -489,7 +502,7 @@ def r_fix(ctx):
         # exits
         breaks = [n for n in f.nodes if n.id in body and isinstance(n.stmt, ast.Break) and n.loops[-1] == head.id]
         rets = [n for n in f.nodes if n.id in body and isinstance(n.stmt, ast.Return)]
-        if not breaks and not rets:
+        if not breaks and not rets and isinstance(head.ast, ast.Constant) and head.ast.value is True:
             run.refute('R-FIX', f, 'exit', head.lineno, 'the trimming loop has no exit', inputs='every mask')
         for i, b in enumerate(breaks + rets):
             conds = ctx.conds(f, b)
@@ -543,11 +556,14 @@ def r_fix(ctx):
             for nd, d, tgt, val in _as(ctx, f):
                 for atom, pol in ctx.conds(f, nd):
                     a = atom
-                    if a[0] == 'sub' and a[1][0] == 'v' and a[1][1] == carried and isinstance(a[1][2], tuple):
+                    if a[0] == 'sub' and a[1][0] == 'v' and is_mask_name(f, a[1][1]):
                         n_all += 1
-                        if any(f.defs[x].node in body for x in a[1][2]):
+                        if a[1][1] == carried and isinstance(a[1][2], tuple) and any(f.defs[x].node in body for x in a[1][2]):
                             n_ok += 1
-            run.check(n_all > 0 and n_ok == n_all, 'R-FIX', f, 'materialise-from-trimmed-mask', head.lineno,
+            if n_all == 0:
+                run.undecided('R-FIX', f, 'materialise-from-trimmed-mask', head.lineno, 'no mask test guarding an arc store was recognised')
+            else:
+              run.check(n_all > 0 and n_ok == n_all, 'R-FIX', f, 'materialise-from-trimmed-mask', head.lineno,
                       'the %d mask tests guarding arc stores read the loop-carried mask' % n_all,
                       'arc stores are guarded by a mask that is not the result of the trimming loop (%d of %d tests)'
                       % (n_all - n_ok, n_all), inputs='masks for which trimming removes a vertex')
@@ -574,6 +590,12 @@ def is_change_indicator(ctx, f, atom, carried, body):
         return carried in names and len(names) >= 2
     if t[0] == 'v' and isinstance(t[2], tuple):
         defs = [f.defs[i] for i in t[2]]
+        # a variable that holds the change indicator computed in the loop (possibly initialised to a constant before it)
+        for d in defs:
+            if d.node in body and d.kind == 'assign':
+                dv = TermBuilder(f, d.node).def_term(d.id)
+                if dv is not None and dv != t and dv[0] in ('bin', 'cmp') and is_change_indicator(ctx, f, dv, carried, body):
+                    return True
         vals = []
         for d in defs:
             v = TermBuilder(f, d.node).def_term(d.id)
